@@ -814,7 +814,11 @@ def main(tier):
     # the second/third entry on: the canonical-XER map must be emitted, root sorted by tag, additions in definition order)
     ws = ("WitSetCxer DEFINITIONS ::= BEGIN\n"
           "SetSame ::= SET { a [1] INTEGER, b [3] INTEGER, c [5] INTEGER, d [7] INTEGER, e [9] INTEGER, f [11] BOOLEAN OPTIONAL }\n"
-          "SetExt ::= SET { a [%d] INTEGER, b [%d] INTEGER, ..., c [1] INTEGER, d [0] INTEGER }\nEND\n") % (rng.range(5, 9), rng.range(2, 4))
+          "SetExt ::= SET { a [%d] INTEGER, b [%d] INTEGER, ..., c [1] INTEGER, d [0] INTEGER }\n"
+          # a long bit-string value printed before shorter ones: asn1f_printable_value wrote `'..'HH` without a terminator into its static
+          # buffer, so the comment showed the tail of the longer text printed before (C12-printable-bitvector-unterminated, repaired)
+          "BitDef ::= SEQUENCE { a BIT STRING DEFAULT '00000010110011000'B, b BIT STRING DEFAULT '9A6B'H, c BIT STRING DEFAULT '101'B }\n"
+          "END\n") % (rng.range(5, 9), rng.range(2, 4))
     rich.append(({"name": "WitSetCxer", "text": ws, "blocks": ["witness-set-cxer"], "alph": {}, "ids": []}, OPTION_SETS[0], []))
     rich_futs = [pool.submit(case_rich, ctx, i, m, opts, extras) for i, (m, opts, extras) in enumerate(rich)]
     nclash = 14 if quick else 90
@@ -1016,6 +1020,13 @@ def main(tier):
                               setsame_has_own_map="tag2el_cxer_1[]" in same_c))
             else:
                 run.count("set_cxer_map_ok")
+            bit_h = r["tree"].get("BitDef.h", b"").decode("latin1")
+            cm = re.findall(r"/\* DEFAULT (.*?) \*/", bit_h)
+            if cm != ["'00000010110011000'B", "'9A6B'H", "'101'B"]:
+                run.violation("oracle:value-text", dict(rep, what="the DEFAULT comments of BitDef.h are not the three bit-string values as written: the text "
+                              "of a value depends on what was printed before it", comments=cm))
+            else:
+                run.count("bitvector_text_ok")
         rc1, rc2, same, rc_as_gen = r["P"]
         if rc1 != rc2 or not same:
             run.violation("oracle:determinism", dict(rep, what="asn1c -P printed different text on a second run", rcs=[rc1, rc2]))
